@@ -40,6 +40,7 @@ STREAM_CLASS = {
     "colliding_names": "F18-colliding-field-names",
 }
 F18 = "F18-colliding-field-names"
+CANONICAL = ("min", "full", "nulls", "rand", "corpus")
 
 
 # ------------------------------------------------------------------ helpers
@@ -272,6 +273,9 @@ def run_case(g, thorough: bool) -> Case:
         for label, w in muts[10:] if not thorough else []:
             if label == "drop_required":
                 rows.append((label, w))
+        for acc in (g.sc.notes.get("accept") or []):
+            if acc["type"] == t.name:
+                rows.append(("corpus", acc["value"]))
         values[t.name] = rows
     val_idx = {}
     for t in in_types:
@@ -383,7 +387,7 @@ def run_case(g, thorough: bool) -> Case:
                 m_co, m_va = res[base], res[base + 1]
                 # K2d: the by-name form of the theorem (Model/Inputs.v rename) vs the key renaming done with the real
                 # classes' alias tables (only where names do not collide and the value is schema-valid)
-                if "renamed" in row and label in ("min", "full", "nulls", "rand") and \
+                if "renamed" in row and label in CANONICAL and \
                         not (iv.reachable_inputs(t, v) & collide):
                     if not eq_json(sx_json(res[base + 2]), row["renamed"]):
                         cs.broken("K2 rename (by Python name) vs real classes",
@@ -429,7 +433,7 @@ def run_case(g, thorough: bool) -> Case:
                         cs.broken("K2 validate vs pydantic",
                                   f"{tn} {label} {v!r}: model {mres!r}, pydantic {ra.get('exc') or 'ok'}")
                 # K3a / K3b: the property itself, on the real classes, against the library's verdict
-                canonical = label in ("min", "full", "nulls", "rand")
+                canonical = label in CANONICAL
                 for how in ("alias", "name"):
                     rr = row.get(how)
                     if rr is None:
@@ -564,6 +568,27 @@ def run_case(g, thorough: bool) -> Case:
     return cs
 
 
+def corpus_scenarios(run):
+    """corpus/C06/*.json: the witnesses of the `_refuted` theorems and the regression Examples of Properties/C06.v
+    as schemas + values; they go through the same K1/K2/K3 pipeline (SDL and introspected), snake case on and off"""
+    import glob
+    import os
+
+    from ..report import VERIF
+
+    out = []
+    for i, path in enumerate(sorted(glob.glob(os.path.join(VERIF, "corpus", "C06", "*.json")))):
+        e = json.load(open(path))
+        name = os.path.basename(path)[:-5]
+        for k, snake in enumerate((True, False)):
+            out.append(inputs_schema.from_types(name, e["types"], 900000 + 2 * i + k, snake,
+                                                notes={"accept": e.get("accept"), "expect_finding": e.get("expect_finding")}))
+        run.dist("corpus", name)
+    if not out:
+        run.broken("corpus", "corpus/C06 is empty or unreadable")
+    return out
+
+
 def resolve_all(gs):
     """force graphql-core's lazy field maps (and the default coercion they perform) now"""
     for t in gs.type_map.values():
@@ -627,7 +652,7 @@ def run(ctx):
     n_main = 40 if not ctx.thorough else 400
     n_feat = 3 if not ctx.thorough else 25
     base = ctx.seed * 100000
-    scs = []
+    scs = corpus_scenarios(run)      # corpus first: the Coq witnesses / regression Examples on the real code
     for i in range(n_main):
         try:
             scs.append(inputs_schema.make(base + i))
@@ -642,7 +667,7 @@ def run(ctx):
     # introspected variants: the same scenarios generated from a loopback HTTP server answering the generator's
     # introspection query with graphql-core (real httpx, nothing patched): all systematic streams + some main ones
     n_intro_main = 8 if not ctx.thorough else 60
-    intro = [s for s in scs if s.features][:] + scs[:n_intro_main]
+    intro = [s for s in scs if s.features][:] + [s for s in scs if not s.features][:n_intro_main]
     srv, urls = serve_schemas([s.sdl for s in intro])
     with workers.Scratch() as sc:
         gens = scen.generate(scs, sc)
@@ -713,5 +738,11 @@ def run(ctx):
                               rep, found_input=bool(rep.get("property_failure_found")))
             else:
                 run.violation(f"{what}: {rep.get('detail', '')[:400]}", rep, found_input=False)
+    # corpus entries that carry an open finding must reproduce it on the real code (else: reported, not an error)
+    for cs in cases:
+        exp = cs.g.sc.notes.get("expect_finding")
+        if exp:
+            hit = any(k == "finding" and c == exp for k, c, *_ in cs.out)
+            run.dist("corpus_findings", f"{cs.g.sc.notes.get('corpus')}: {'reproduced' if hit else 'NOT reproduced'}")
     run.extra["k1_disagreements"] = k1_bad
     run.extra["scenarios_total"] = len(cases)
